@@ -111,6 +111,41 @@ func skolemVariant(ob *Obligation) *Obligation {
 	alt := &Obligation{Name: ob.Name, Func: ob.Func, Kind: ob.Kind, Props: ob.Props, Pos: ob.Pos, Descr: ob.Descr, Tags: ob.Tags, Uses: ob.Uses}
 	alt.Hyps = append(append([]*Term(nil), ob.Hyps...), extra...)
 	alt.Goal = goal
+	// modus ponens on what is literally there: with the goal's antecedents among the hypotheses, an implication
+	// whose antecedent conjuncts are all hypotheses yields its consequent (to a fixed point)
+	if len(extra) > 0 {
+		hs := map[string]bool{}
+		for _, h := range alt.Hyps {
+			for _, c := range conjuncts(h) {
+				hs[c.String()] = true
+			}
+		}
+		for changed, rounds := true, 0; changed && rounds < 4; rounds++ {
+			changed = false
+			for _, h := range alt.Hyps {
+				if h.Op != "=>" || len(h.Args) != 2 || hs[h.Args[1].String()] {
+					continue
+				}
+				all := true
+				for _, c := range conjuncts(h.Args[0]) {
+					if !hs[c.String()] {
+						all = false
+						break
+					}
+				}
+				if all {
+					for _, c := range conjuncts(h.Args[1]) {
+						if !hs[c.String()] {
+							hs[c.String()] = true
+							alt.Hyps = append(alt.Hyps, c)
+							changed = true
+						}
+					}
+					hs[h.Args[1].String()] = true
+				}
+			}
+		}
+	}
 	if len(cands) > 0 || len(ix.by) > 0 {
 		w := &weakener{cands: cands, ix: ix}
 		var inst []*Term
